@@ -200,6 +200,16 @@ def rule_sib(ctx):
         else:
             obs.append(bad('SIB-3', 'sdl/directive', 'directive/argument names are %s' % sorted(lits), fd.loc, 'deprecations in SDL are not seen'))
         t = ctx.pv.eval(fd, fd.body, H.sym_env(fd), 0)
+        # the reason is the *content* of the string argument: taken out of `Value::String(s)`, not printed back as GraphQL
+        # source (`value.to_string()` escapes quotes, backslashes, newlines) and not trimmed or otherwise rewritten
+        printed = [n_ for n_ in walk(fd.body) if n_['k'] == 'mcall' and n_['method'] in ('to_string', 'trim_matches', 'trim', 'trim_start_matches', 'trim_end_matches', 'replace', 'strip_prefix', 'strip_suffix', 'to_lowercase', 'to_uppercase')
+                   and not any(p_.get('k') == 'macro' for p_, r_, c_ in fd.ancestors(n_))]
+        printed = [n_ for n_ in printed if 'Value' in (n_['recv'].get('ty', '') + n_['recv'].get('aty', '')) or n_['method'] != 'to_string']
+        if printed:
+            obs.append(bad('SIB-3', 'sdl/reason-verbatim', 'the deprecation reason goes through `%s`' % printed[0]['method'], printed[0].get('sp', fd.loc),
+                           'reasons containing quotes, backslashes or line breaks reach #[deprecated(note = ..)] mangled (and differ from the JSON rendering)'))
+        else:
+            obs.append(ok('SIB-3', 'sdl/reason-verbatim', 'the reason is the content of the string argument, unchanged', fd.loc))
         # found directive without reason -> Some(None): the outer Option must not depend on the reason
         txt = P.show(t, 0, 8)
     full = 'graphql_client_codegen::schema::StoredField'
